@@ -1755,4 +1755,46 @@ std::string dumpIr(const IrModel &m, const DumpOptions &o)
     return s;
 }
 
+// ---- permutation of an IR (child order only; content identical) ----
+IrModel permuteIr(const IrModel &src, Rng &rng)
+{
+    IrModel m = src;
+    size_t n = m.comps.size();
+    std::vector<int> perm(n);
+    for (size_t i = 0; i < n; ++i) {
+        perm[i] = static_cast<int>(i);
+    }
+    rng.shuffle(perm); // new position p holds old component perm[p]
+    std::vector<int> where(n);
+    for (size_t p = 0; p < n; ++p) {
+        where[static_cast<size_t>(perm[p])] = static_cast<int>(p);
+    }
+    std::vector<IrComponent> nc(n);
+    for (size_t p = 0; p < n; ++p) {
+        nc[p] = src.comps[static_cast<size_t>(perm[p])];
+        if (nc[p].parent >= 0) {
+            nc[p].parent = where[static_cast<size_t>(nc[p].parent)];
+        }
+        for (auto &k : nc[p].children) {
+            k = where[static_cast<size_t>(k)];
+        }
+        rng.shuffle(nc[p].children);
+        rng.shuffle(nc[p].vars);
+        rng.shuffle(nc[p].resets);
+    }
+    m.comps = nc;
+    for (auto &cn : m.conns) {
+        cn.c1 = where[static_cast<size_t>(cn.c1)];
+        cn.c2 = where[static_cast<size_t>(cn.c2)];
+        rng.shuffle(cn.maps);
+    }
+    rng.shuffle(m.conns);
+    rng.shuffle(m.units);
+    for (auto &u : m.units) {
+        rng.shuffle(u.units);
+    }
+    return m;
+}
+
+
 } // namespace vh
